@@ -459,8 +459,20 @@ impl World {
                 let a = *a;
                 match self.refs.get_mut(&a) {
                     Some(r) if r.pending => {
+                        // Not yet accepted: the application has not consented to anything, so the
+                        // datagram is handled like one from an unknown address (connless payloads
+                        // are delivered, everything else is a warning) except that a repeated
+                        // connect request is dropped; nothing is sent, the peer stays as it is.
                         p.pending_feed = Some(r.pid);
-                        p.tag = "C20/pending-peer-answered";
+                        p.tag = "C20/pending-peer-datagram";
+                        let q = parse_with(bytes, None);
+                        if q.err {
+                            p.warns.push(format!("c.{}.read", a));
+                        } else if q.connless {
+                            p.events.push(format!("cl.{}.-.{}", a, &q.text[3..]));
+                        } else if q.connect.is_none() {
+                            p.warns.push(format!("c.{}.unexpected", a));
+                        }
                     }
                     Some(r) => {
                         let pid = r.pid;
@@ -640,14 +652,11 @@ impl World {
             if obs.events.iter().any(|e| e.starts_with("con.")) {
                 fail(o, "C20/second-peer-for-address", format!("events {:?}", obs.events));
             }
-            // the peer may leave (its address sent a close): follow the endpoint
-            if obs.events.iter().any(|e| e.starts_with(&format!("dc.{}.", pid))) {
-                if let Some(a) = self.addr_of(pid) {
-                    self.refs.remove(&a);
-                    self.check_gone(op_txt, a, pid, o);
-                }
+            if !got.is_empty() || obs.events.iter().any(|e| e.starts_with("con.")) {
+                self.checks = false;
+                return;
             }
-            return;
+            // fall through: events, warnings, liveness and deadline are compared as for any call
         }
         if got != want {
             for a in got.keys() {
@@ -839,8 +848,49 @@ pub struct R {
 
 impl Runner for R {
     fn run(&mut self, toks: &[&str], oracle: &mut Oracle) -> String {
+        if let ["sweep", kind, depth, lo, hi, "|", rest @ ..] = toks {
+            return match (depth.parse::<u32>(), lo.parse::<u64>(), hi.parse::<u64>()) {
+                (Ok(depth), Ok(lo), Ok(hi)) => sweep(kind, depth, lo, hi, rest, oracle),
+                _ => "bad-op".to_string(),
+            };
+        }
         self.w.exec(toks, oracle)
     }
+}
+
+/// Hash form: every sequence of `depth` calls over the alphabet `rest` (calls separated by `;`)
+/// with index in `[lo, hi)` (digits base |alphabet|, most significant first), each from a fresh
+/// endpoint; the output lines are folded into FNV-1a.  The oracle runs on every sequence.
+fn sweep(kind: &str, depth: u32, lo: u64, hi: u64, rest: &[&str], o: &mut Oracle) -> String {
+    let ops: Vec<&[&str]> = rest.split(|t| *t == ";").collect();
+    let k = ops.len() as u64;
+    if k == 0 {
+        return "bad-op".to_string();
+    }
+    let mut h = FNV_OFFSET;
+    let line_no = o.line_no;
+    for i in lo..hi {
+        let mut w = World::new();
+        w.exec(&["new", kind], o);
+        let before = o.fails.len();
+        let mut seq: Vec<String> = vec![];
+        for j in (0..depth).rev() {
+            let d = ((i / k.pow(j)) % k) as usize;
+            let line = match catch(|| w.exec(ops[d], o)) {
+                Ok(l) => l,
+                Err(_) => "panic".to_string(),
+            };
+            seq.push(ops[d].iter().take(3).map(|t| if t.len() > 24 { &t[..24] } else { t }).collect::<Vec<_>>().join(" "));
+            h = fnv_byte(fnv_bytes(h, line.as_bytes()), 10);
+        }
+        for f in o.fails.iter_mut().skip(before) {
+            f.0 = line_no;
+            f.2 = format!("{} [sweep sequence #{}: {}]", f.2, i, seq.join(" ; "));
+        }
+        o.add("ops_in_sweeps", depth as u64);
+    }
+    o.add("net_sequences_swept", hi.saturating_sub(lo));
+    format!("h {}", h)
 }
 
 // --------------------------------------------------------------------------------------------
@@ -1260,7 +1310,63 @@ impl<'a> Gen<'a> {
     }
 }
 
+fn write_pkt(ack: u16, token: Option<[u8; 4]>, type_: px::ConnectedPacketType) -> Vec<u8> {
+    let mut buf = [0u8; 2048];
+    let p = px::Packet::Connected(px::ConnectedPacket { ack, token: token.map(px::Token), type_ });
+    p.write(&mut buf[..]).map(|b| b.to_vec()).unwrap_or_default()
+}
+
+/// the alphabet of the exhaustive small-scope sweep: two addresses, both handshake directions with
+/// and without token, data, closes, every application call, time and tick
+fn sweep_alphabet() -> Vec<String> {
+    let feed = |a: u32, d: &[u8], draw: &str| format!("feed {} {} {} r={}", a, to_hex(d), parses(d), draw);
+    let t1 = [1u8, 2, 3, 4];
+    let mut chunk: Vec<u8> = Vec::new();
+    let _ = px::write_chunk(&[0xaa], Some((1, false)), &mut chunk);
+    vec![
+        feed(1, &client_connect(true), "01020304"),
+        feed(1, &client_connect(false), "01020304"),
+        feed(2, &client_connect(true), "05060708"),
+        "accept 0 r=01020304".to_string(),
+        "accept 1 r=05060708".to_string(),
+        "reject 0 62".to_string(),
+        "connect 2".to_string(),
+        feed(2, &write_pkt(0, Some([10, 11, 12, 13]), px::ConnectedPacketType::Control(px::ControlPacket::ConnectAccept)), "090a0b0c"),
+        feed(1, &write_pkt(0, Some(t1), px::ConnectedPacketType::Chunks(false, 1, &chunk)), "090a0b0c"),
+        feed(1, &write_pkt(0, None, px::ConnectedPacketType::Chunks(false, 1, &chunk)), "090a0b0c"),
+        feed(1, &write_pkt(0, Some(t1), px::ConnectedPacketType::Control(px::ControlPacket::Close(b"x"))), "090a0b0c"),
+        "send 0 v bb".to_string(),
+        "flush 0".to_string(),
+        "disconnect 0 62".to_string(),
+        "ignore 1".to_string(),
+        "time 600".to_string(),
+        "tick".to_string(),
+    ]
+}
+
+fn gen_sweeps(depth: u32, chunk: u64, out: &mut dyn std::io::Write) {
+    let alpha = sweep_alphabet();
+    let total = (alpha.len() as u64).pow(depth);
+    let text = alpha.join(" ; ");
+    let mut lo = 0;
+    while lo < total {
+        let hi = (lo + chunk).min(total);
+        // a session boundary before every sweep line lets the check shard between them
+        writeln!(out, "new s").unwrap();
+        writeln!(out, "sweep s {} {} {} | {}", depth, lo, hi, text).unwrap();
+        lo = hi;
+    }
+}
+
 fn gen_all(tier: &str, seed: u64, out: &mut dyn std::io::Write) {
+    match tier {
+        "thorough" => {
+            gen_sweeps(4, 4096, out);
+            gen_sweeps(5, 32768, out);
+        }
+        "search" => {}
+        _ => gen_sweeps(4, 8192, out),
+    }
     let (sessions, steps) = match tier {
         "thorough" => (6000, 300),
         "search" => (500, 200),
